@@ -1598,6 +1598,16 @@ def rule_fillwiden(ctx) -> RuleResult:
             res.report(f"xrdtypes._normalize_dtype|return-before-fill-widening|{getattr(r.ast, 'lineno', 0)}", f.where(r.ast), f.qualname,
                        f"'{norm(r.ast)[:50]}' returns before the fill value has been considered: on this path an integer result is not widened for a NaN / fractional / "
                        "out-of-range fill_value, which _finalize_results then writes and casts back (NaN becomes int64.min)")
+    # value clause: np.result_type(dtype, <Python int>) treats the fill as a WEAK scalar (NEP 50): it never widens an integer dtype, however large
+    # the fill is.  Some widening call must therefore look at the VALUE of the fill (np.min_scalar_type(fill_value), np.asarray(fill_value),
+    # or an explicit np.iinfo range test on the way).
+    value_based = any(isinstance(x, ast.Call) and norm(x.func) in ("np.min_scalar_type", "np.asarray", "np.array", "np.iinfo", "np.can_cast")
+                      and ("fill_value" in names_in(x) or norm(x.func) == "np.iinfo") for x in ast.walk(f.node))
+    res.inst(f"_normalize_dtype: some widening step looks at the value of an integer fill (weak scalars never widen): {value_based}", "value")
+    if not value_based:
+        res.report("xrdtypes._normalize_dtype|integer-fill-is-a-weak-scalar", f.where(widen_calls[0]), f.qualname,
+                   f"'{norm(widen_calls[0])[:50]}' is the only widening: for a Python integer fill NumPy 2 keeps the integer dtype whatever the value, so fill_value=1000 with "
+                   "int8 max/min/first/last raises OverflowError eagerly and wraps to -24 on the chunked plans; fill_value=-1 with unsigned data likewise")
     return res
 
 
